@@ -43,7 +43,7 @@ CHECKS = {
    text="Interleaved histories over up to 2 scanners from build() (same cache entry), up to 6 iterators and 2-3 inputs; each iterator's own sub-history is replayed alone on a scanner from build_uncached() and every observation must be identical.",
    note="offsets are mapped onto character boundaries of the iterator's own input", ref="5 C12"),
  "C13": dict(cat="exploration", tech="differential property testing over generated build sequences (build() vs build_uncached()), near-identical key variants and failing builds",
-   text="Sequences of 3-10 builds from a pool of a base configuration, near-identical variants, an unrelated and failing configurations; every build() is compared with build_uncached(): outcome, mode names, token streams on probe inputs from all variants' languages, automaton dumps (class predicates on a probe set; exact language equivalence when dumps differ and for the last build of every fourth case).",
+   text="Sequences of 3-10 builds from a pool of a base configuration, near-identical variants (incl. one colliding under the cache map's hasher and twins that read the same in one-line text renderings of the configuration), an unrelated and failing configurations; every build() is compared with build_uncached(): outcome, mode names, token streams on probe inputs from all variants' languages, automaton dumps (class predicates on a probe set; exact language equivalence when dumps differ and for the last build of every fourth case).",
    note="mode names carry a per-execution nonce so executions never share cache entries; the process-wide cache cannot be reset", ref="5 C13"),
  "C14": dict(cat="exploration", engine="c14", tech="randomized stress of generated thread programs on real threads with seeded schedule perturbation against sequential execution; compile-time Send+Sync bound; thorough adds ThreadSanitizer and Miri many-seeds",
    text="Weakest claim of the set: schedules are sampled, not enumerated. 2-8 thread programs of cache builds (hits, misses, failing) and scans on a shared Arc<Scanner>, barrier-aligned, spin/yield perturbation, 20 repetitions with fresh cache keys per case; every observation must equal the sequential one; panics and no-progress (watchdog) are violations; the check binary only compiles if Scanner: Send + Sync.",
